@@ -2,4 +2,4 @@
    per-rank programs of the notify algorithms (co-simulated against the traces of the real code). *)
 From Coq Require Import Extraction ExtrOcamlBasic ZArith.
 From ScV Require Import Base.CInt MPI.Prog Gen.Consts Gen.NotifyC01 C01.MergeModel C01.NotifyProgs.
-Extraction "c01_model.ml" notify_merge decode encode rmerge live notify_prog.
+Extraction "c01_model.ml" notify_merge decode encode rmerge live notify_prog censusv_core K_RSB K_RMA.
